@@ -1,7 +1,350 @@
 import ZarrsModel.Model.Fault
 import ZarrsModel.Model.Cache
 import ZarrsModel.Props.C16
-/- helper lemmas for C20 -/
-namespace Zarrs
+import ZarrsModel.Props.C06
+set_option linter.unusedSectionVars false
+/-
+helper lemmas for C20.
 
+Every per-chunk step of a multi-chunk write is a *single-key* store operation whose outcome (fail / erase /
+set `v`) depends only on the value currently stored under the chunk's own key.  `KV.applyW` is that store
+operation, the `…W` functions compute the outcome from the old value, `kvStep` is the shape shared by all such
+steps, and the `foldOpt_kvStep_*` lemmas describe a fold of such steps over chunks with distinct keys.
+-/
+namespace Zarrs
+open Subset
+
+/-! ### one single-key store operation -/
+
+namespace KV
+
+/-- erase (`none`) or set (`some v`) the value of one key -/
+def applyW (s : KV) (k : Key) : Option Bytes → KV
+  | none => s.erase k
+  | some v => s.put k v
+
+theorem get_applyW (s : KV) (k : Key) (w : Option Bytes) (k' : Key) :
+    (s.applyW k w).get k' = if k' = k then w else s.get k' := by
+  cases w with
+  | none => simp only [applyW, get_erase]
+  | some v => simp only [applyW, get_put]
+
+theorem applyW_sorted (s : KV) (hs : s.sorted) (k : Key) (w : Option Bytes) : (s.applyW k w).sorted := by
+  cases w with
+  | none => exact erase_sorted s hs k
+  | some v => exact put_sorted s hs k v
+
+end KV
+
+theorem lexLt_irrefl' (a : Idx) : lexLt a a = false := by
+  induction a with
+  | nil => rfl
+  | cons x xs ih => simp [lexLt, ih]
+
+/-- the indices of a well-formed box are pairwise distinct -/
+theorem Subset.indices_nodup (s : Subset) (h : s.wf = true) : s.indices.Nodup :=
+  (s.indices_pairwise h).imp (fun {a b} hab e => by
+    subst e
+    rw [lexLt_irrefl'] at hab
+    cases hab)
+
+/-! ### `updateRuns` is idempotent -/
+
+theorem updateRuns_idem {α} (sh : Shape) (r : Subset) (xs ys : List α) (hr : r.wf = true)
+    (hb : r.inboundsShape sh = true) (hx : xs.length = prod sh) (hy : ys.length = r.numElements) :
+    updateRuns sh r (updateRuns sh r xs ys) ys = updateRuns sh r xs ys := by
+  obtain ⟨hl1, hp1⟩ := updateRuns_spec sh r xs ys hr hb hx hy
+  obtain ⟨hl2, hp2⟩ := updateRuns_spec sh r (updateRuns sh r xs ys) ys hr hb hl1 hy
+  apply list_ext_box sh _ _ hl2 hl1
+  intro j hj
+  rw [hp2 j hj, hp1 j hj]
+  split <;> rfl
+
+namespace ArrCfg
+variable {α : Type} [DecidableEq α]
+variable {cfg : ArrCfg α}
+
+/-! ### the outcome of the array write steps as a function of the old value -/
+
+/-- outcome of `store_chunk`: `none` = error, `some none` = erase the key, `some (some v)` = set it to `v` -/
+def storeChunkW (cfg : ArrCfg α) (c : Idx) (data : List α) : Option (Option Bytes) :=
+  match cfg.chunkShape c with
+  | none => none
+  | some s =>
+    if data.length != prod s then none
+    else if !cfg.storeEmpty && cfg.isFill data then some none
+    else some (some (cfg.enc data))
+
+theorem storeChunk_eq (st : KV) (c : Idx) (d : List α) :
+    cfg.storeChunk st c d = (cfg.storeChunkW c d).map (st.applyW (cfg.keyOf c)) := by
+  simp only [storeChunk, storeChunkW]
+  cases cfg.chunkShape c with
+  | none => rfl
+  | some s =>
+    simp only
+    split
+    · rfl
+    · split <;> rfl
+
+/-- `retrieve_chunk` as a function of the value stored under the chunk's key -/
+def retrieveChunkV (cfg : ArrCfg α) (c : Idx) (old : Option Bytes) : Option (List α) :=
+  match cfg.chunkShape c with
+  | none => none
+  | some s =>
+    match old with
+    | none => some (List.replicate (prod s) cfg.fill)
+    | some b => match cfg.dec b with
+      | some xs => if xs.length = prod s then some xs else none
+      | none => none
+
+theorem retrieveChunk_eqV (st : KV) (c : Idx) :
+    cfg.retrieveChunk st c = cfg.retrieveChunkV c (st.get (cfg.keyOf c)) := by
+  cases hs : cfg.chunkShape c with
+  | none => simp [retrieveChunk, retrieveChunkV, hs]
+  | some s =>
+    rw [retrieveChunk_eq st c s hs]
+    simp only [retrieveChunkV, hs]
+    cases st.get (cfg.keyOf c) with
+    | none => rfl
+    | some b => rfl
+
+theorem retrieveChunkV_length (c : Idx) (s : Shape) (hs : cfg.chunkShape c = some s) (old : Option Bytes)
+    (xs : List α) (h : cfg.retrieveChunkV c old = some xs) : xs.length = prod s := by
+  simp only [retrieveChunkV, hs] at h
+  cases old with
+  | none =>
+    simp only [Option.some.injEq] at h
+    subst h
+    simp
+  | some b =>
+    simp only at h
+    cases hd : cfg.dec b with
+    | none => rw [hd] at h; cases h
+    | some ys =>
+      rw [hd] at h
+      simp only at h
+      split at h
+      · simp only [Option.some.injEq] at h
+        subst h
+        assumption
+      · cases h
+
+/-- reading back what `store_chunk` left under the key gives the chunk that was stored (lossless chain; an elided
+all-fill chunk reads back as fill) -/
+theorem storeChunkW_readback (hL : cfg.Lossless) (c : Idx) (d : List α) (w : Option Bytes)
+    (h : cfg.storeChunkW c d = some w) : cfg.retrieveChunkV c w = some d := by
+  simp only [storeChunkW] at h
+  cases hs : cfg.chunkShape c with
+  | none => rw [hs] at h; cases h
+  | some s =>
+    rw [hs] at h
+    simp only at h
+    split at h
+    · cases h
+    · rename_i hlen
+      simp only [bne_iff_ne, ne_eq, Decidable.not_not] at hlen
+      split at h
+      · rename_i hf
+        simp only [Option.some.injEq] at h
+        subst h
+        simp only [Bool.and_eq_true] at hf
+        have hall := (isFill_iff (cfg := cfg) d).1 hf.2
+        simp only [retrieveChunkV, hs, Option.some.injEq]
+        exact (List.eq_replicate_iff.2 ⟨hlen, hall⟩).symm
+      · simp only [Option.some.injEq] at h
+        subst h
+        simp only [retrieveChunkV, hs, hL d, hlen, if_true]
+
+/-- outcome of `store_chunk_subset` given the old value under the chunk's key -/
+def storeChunkSubsetW (cfg : ArrCfg α) (c : Idx) (r : Subset) (data : List α) (old : Option Bytes) :
+    Option (Option Bytes) :=
+  match cfg.chunkShape c with
+  | none => none
+  | some s =>
+    if !(r.rank == s.length && Subset.allLe r.endExc s) then none
+    else if r.shape == s && r.start.all (· == 0) then cfg.storeChunkW c data
+    else if data.length != r.numElements then none
+    else match cfg.retrieveChunkV c old with
+      | none => none
+      | some oldxs => cfg.storeChunkW c (updateRuns s r oldxs data)
+
+theorem storeChunkSubset_eq (st : KV) (c : Idx) (r : Subset) (d : List α) :
+    cfg.storeChunkSubset st c r d =
+      (cfg.storeChunkSubsetW c r d (st.get (cfg.keyOf c))).map (st.applyW (cfg.keyOf c)) := by
+  simp only [storeChunkSubset, storeChunkSubsetW, retrieveChunk_eqV]
+  cases cfg.chunkShape c with
+  | none => rfl
+  | some s =>
+    simp only
+    split
+    · rfl
+    · split
+      · exact storeChunk_eq st c d
+      · split
+        · rfl
+        · cases cfg.retrieveChunkV c (st.get (cfg.keyOf c)) with
+          | none => rfl
+          | some oldxs => exact storeChunk_eq st c _
+
+/-- **the per-chunk step is idempotent on its own key**: applied to the value it produced, it produces that
+value again -/
+theorem storeChunkSubsetW_idem (hL : cfg.Lossless) (c : Idx) (r : Subset) (d : List α) (hrw : r.wf = true)
+    (old w : Option Bytes) (h : cfg.storeChunkSubsetW c r d old = some w) :
+    cfg.storeChunkSubsetW c r d w = some w := by
+  simp only [storeChunkSubsetW] at h ⊢
+  cases hs : cfg.chunkShape c with
+  | none => rw [hs] at h; cases h
+  | some s =>
+    rw [hs] at h
+    simp only at h ⊢
+    split at h
+    · cases h
+    · rename_i hb
+      rw [if_neg hb]
+      split at h
+      · rename_i hfull
+        rw [if_pos hfull]
+        exact h
+      · rename_i hfull
+        rw [if_neg hfull]
+        split at h
+        · cases h
+        · rename_i hlen
+          rw [if_neg hlen]
+          simp only [bne_iff_ne, ne_eq, Decidable.not_not] at hlen
+          simp only [Bool.not_eq_true', Bool.not_eq_false] at hb
+          cases ho : cfg.retrieveChunkV c old with
+          | none => rw [ho] at h; cases h
+          | some oldxs =>
+            rw [ho] at h
+            simp only at h
+            have hol := retrieveChunkV_length c s hs old oldxs ho
+            rw [storeChunkW_readback hL c _ w h]
+            simp only
+            rw [updateRuns_idem s r oldxs d hrw hb hol hlen]
+            exact h
+
+/-- outcome of the per-chunk step of `store_array_subset` given the old value under the chunk's key -/
+def storeArraySubsetChunkW (cfg : ArrCfg α) (region : Subset) (data : List α) (c : Idx) (old : Option Bytes) :
+    Option (Option Bytes) :=
+  match cfg.chunkSubset c with
+  | none => none
+  | some cs =>
+    let ov := region.overlap cs
+    cfg.storeChunkSubsetW c (ov.relativeTo cs.start) ((ov.relativeTo region.start).extract region.shape data) old
+
+/-- outcome of the per-chunk step of `store_chunks` (it does not read the old value) -/
+def storeChunksChunkW (cfg : ArrCfg α) (region : Subset) (data : List α) (c : Idx) (_old : Option Bytes) :
+    Option (Option Bytes) :=
+  match cfg.chunkSubset c with
+  | none => none
+  | some cs => cfg.storeChunkW c ((cs.relativeTo region.start).extract region.shape data)
+
+/-- the subset of a chunk is well-formed -/
+theorem chunkSubset_wf {c : Idx} {cs : Subset} (h : cfg.chunkSubset c = some cs) : cs.wf = true := by
+  obtain ⟨_, ho, hs⟩ := chunkSubset_some h
+  have h1 := zipOpt_length _ _ _ _ ho
+  have h2 := zipOpt_length _ _ _ _ hs
+  simp only [Subset.wf, beq_iff_eq]
+  omega
+
+theorem overlap_relativeTo_wf (region cs : Subset) (hw : region.wf = true) (hcs : cs.wf = true) :
+    ((region.overlap cs).relativeTo cs.start).wf = true := by
+  simp only [Subset.wf, beq_iff_eq] at hw hcs ⊢
+  simp only [Subset.relativeTo, Subset.overlap, Subset.endExc, zipSub_length, zipMin_length, zipMax_length,
+    addIdx_length]
+  omega
+
+theorem storeArraySubsetChunkW_idem (hL : cfg.Lossless) (region : Subset) (data : List α) (hw : region.wf = true)
+    (c : Idx) (old w : Option Bytes) (h : cfg.storeArraySubsetChunkW region data c old = some w) :
+    cfg.storeArraySubsetChunkW region data c w = some w := by
+  simp only [storeArraySubsetChunkW] at h ⊢
+  cases hcs : cfg.chunkSubset c with
+  | none => rw [hcs] at h; cases h
+  | some cs =>
+    rw [hcs] at h
+    simp only at h ⊢
+    exact storeChunkSubsetW_idem hL c _ _ (overlap_relativeTo_wf region cs hw (chunkSubset_wf hcs)) old w h
+
+/-! ### folds of single-key steps -/
+
+/-- a step that performs one store operation on the key of its chunk, decided from the old value of that key -/
+def kvStep (keyOf : Idx → Key) (W : Idx → Option Bytes → Option (Option Bytes)) (s : KV) (c : Idx) : Option KV :=
+  (W c (s.get (keyOf c))).map (s.applyW (keyOf c))
+
+theorem storeArraySubsetChunk_eq_kvStep (region : Subset) (data : List α) :
+    cfg.storeArraySubsetChunk region data = kvStep cfg.keyOf (cfg.storeArraySubsetChunkW region data) := by
+  funext st c
+  simp only [storeArraySubsetChunk, storeArraySubsetChunkW, kvStep]
+  cases cfg.chunkSubset c with
+  | none => rfl
+  | some cs => exact storeChunkSubset_eq st c _ _
+
+theorem storeChunksChunk_eq_kvStep (region : Subset) (data : List α) :
+    cfg.storeChunksChunk region data = kvStep cfg.keyOf (cfg.storeChunksChunkW region data) := by
+  funext st c
+  simp only [storeChunksChunk, storeChunksChunkW, kvStep]
+  cases cfg.chunkSubset c with
+  | none => rfl
+  | some cs => exact storeChunk_eq st c _
+
+section fold
+variable (keyOf : Idx → Key) (W : Idx → Option Bytes → Option (Option Bytes))
+
+/-- a successful fold over chunks with distinct keys: every chunk's key holds the outcome of its own step
+*computed from the initial state*, all other keys are untouched, sortedness is kept -/
+theorem foldOpt_kvStep_some (l : List Idx) (hnd : (l.map keyOf).Nodup) (s s' : KV)
+    (h : foldOpt (kvStep keyOf W) s l = some s') :
+    (∀ c ∈ l, W c (s.get (keyOf c)) = some (s'.get (keyOf c))) ∧
+    (∀ k, k ∉ l.map keyOf → s'.get k = s.get k) ∧ (s.sorted → s'.sorted) := by
+  induction l generalizing s with
+  | nil =>
+    simp only [foldOpt, Option.some.injEq] at h
+    subst h
+    exact ⟨fun _ hc => (nomatch hc), fun _ _ => rfl, id⟩
+  | cons c rest ih =>
+    simp only [List.map_cons, List.nodup_cons] at hnd
+    simp only [foldOpt] at h
+    cases hw : W c (s.get (keyOf c)) with
+    | none => simp only [kvStep, hw, Option.map_none] at h; cases h
+    | some w =>
+      simp only [kvStep, hw, Option.map_some] at h
+      obtain ⟨ih1, ih2, ih3⟩ := ih hnd.2 _ h
+      have hc' : s'.get (keyOf c) = w := by
+        rw [ih2 _ hnd.1, KV.get_applyW, if_pos rfl]
+      refine ⟨?_, ?_, fun hs => ih3 (KV.applyW_sorted s hs _ w)⟩
+      · intro c' hc'm
+        rcases List.mem_cons.1 hc'm with rfl | hr
+        · rw [hc']; exact hw
+        · have hne : keyOf c' ≠ keyOf c := fun e => hnd.1 (e ▸ List.mem_map_of_mem hr)
+          have := ih1 c' hr
+          rwa [KV.get_applyW, if_neg hne] at this
+      · intro k hk
+        simp only [List.map_cons, List.mem_cons, not_or] at hk
+        rw [ih2 k hk.2, KV.get_applyW, if_neg hk.1]
+
+/-- if every chunk's step succeeds on the initial value of its key, the fold over chunks with distinct keys
+succeeds -/
+theorem foldOpt_kvStep_of (l : List Idx) (hnd : (l.map keyOf).Nodup) (s : KV) (V : Idx → Option Bytes)
+    (h : ∀ c ∈ l, W c (s.get (keyOf c)) = some (V c)) :
+    ∃ s', foldOpt (kvStep keyOf W) s l = some s' := by
+  induction l generalizing s with
+  | nil => exact ⟨s, rfl⟩
+  | cons c rest ih =>
+    simp only [List.map_cons, List.nodup_cons] at hnd
+    simp only [foldOpt, kvStep, h c List.mem_cons_self, Option.map_some]
+    apply ih hnd.2
+    intro c' hc'
+    have hne : keyOf c' ≠ keyOf c := fun e => hnd.1 (e ▸ List.mem_map_of_mem hc')
+    rw [KV.get_applyW, if_neg hne]
+    exact h c' (List.mem_cons_of_mem _ hc')
+
+end fold
+
+/-- distinct chunks have distinct keys -/
+theorem keys_nodup (hK : cfg.KeysInjective) (l : List Idx) (hnd : l.Nodup) : (l.map cfg.keyOf).Nodup := by
+  rw [List.Nodup, List.pairwise_map]
+  exact hnd.imp (fun {a b} hab e => hab (hK a b e))
+
+end ArrCfg
 end Zarrs
